@@ -310,9 +310,9 @@ func Node(sb *strings.Builder, node interface{}, depth int) {
 	case *ast.AttachQuery:
 		explainAttachQuery(sb, n, indent, depth)
 	case *ast.BackupQuery:
-		explainBackupQuery(sb, n, indent)
+		explainBackupQuery(sb, n, indent, depth)
 	case *ast.RestoreQuery:
-		explainRestoreQuery(sb, n, indent)
+		explainRestoreQuery(sb, n, indent, depth)
 	case *ast.AlterQuery:
 		explainAlterQuery(sb, n, indent, depth)
 	case *ast.OptimizeQuery:
